@@ -1897,18 +1897,24 @@ func (m *repoManager) newVersion(parent dvid.UUID, note string, branchname strin
 	m.newVersionMutex.Lock()
 	defer m.newVersionMutex.Unlock()
 
+	// The parent is read under its lock, which is released before any lock of the repo is
+	// requested: saving a repo read-locks the repo and then every node, so a node's lock must
+	// not be held while waiting for the repo's (nor while saving).  Children are only added
+	// under newVersionMutex (here and in merge), so the copy stays current.
 	node.RLock()
-	defer node.RUnlock()
-	if !node.locked {
+	parentLocked, parentBranch := node.locked, node.branch
+	sisters := append([]dvid.VersionID(nil), node.children...)
+	node.RUnlock()
+	if !parentLocked {
 		return dvid.NilUUID, ErrBranchUnlockedNode
 	}
 
 	// check to make sure there are not already
 	// children with the same branch
-	if branchname == "" || branchname == node.branch {
+	if branchname == "" || branchname == parentBranch {
 		// check other children nodes
-		branchname = node.branch
-		for _, sister := range node.children {
+		branchname = parentBranch
+		for _, sister := range sisters {
 			// check if there is already a branch here
 			r.RLock()
 			r.dag.RLock()
@@ -1956,8 +1962,10 @@ func (m *repoManager) newVersion(parent dvid.UUID, note string, branchname strin
 	m.repos[childUUID] = r
 	m.repoMutex.Unlock()
 
+	node.Lock()
 	node.children = append(node.children, childV)
 	node.updated = time.Now()
+	node.Unlock()
 
 	r.Lock()
 	r.dag.Lock()
@@ -2029,6 +2037,10 @@ func (m *repoManager) merge(parents []dvid.UUID, note string, mt MergeType) (dvi
 	default:
 		return dvid.NilUUID, ErrBadMergeType
 	}
+
+	// Adding children to nodes is serialized with version creation (see newVersion).
+	m.newVersionMutex.Lock()
+	defer m.newVersionMutex.Unlock()
 
 	// Add the child node.  Since it's new and unavailable, no need to lock it.
 	childUUID, childV, err := m.newUUID(nil)
